@@ -18,7 +18,7 @@ class Prop(BaseProp):
             "are rounding-ambiguous (float and exact comparison disagree) are counted, not judged. distinct = "
             "(interleaving word, keyword regime, threshold class)")
     budget = {"quick": 1400, "thorough": 42000}
-    must_see = ["thr_exact_hit_N-1=1", "thr_exact_hit_N-1=2", "thr_exact_hit_N-1=4", "thr_zero", "thr_one", "thr_random",
+    must_see = ["crowd_more_than_127_trains", "thr_exact_hit_N-1=1", "thr_exact_hit_N-1=2", "thr_exact_hit_N-1=4", "thr_zero", "thr_one", "thr_random",
                 "spike_value_equals_threshold", "simultaneous_spikes", "max_tau_positive", "mrts_positive",
                 "profile_crosscheck", "removed_checked", "monotone_checked", "empty_train_in_list", "reconcile_off"]
     arm_files = [("pyspike/spike_sync.py", ["filter_by_spike_sync"]), ("pyspike/cython/python_backend.py", ["coincidence_single_python"])]
@@ -26,8 +26,16 @@ class Prop(BaseProp):
                    "rounding-ambiguous coincidence are not judged"]
 
     def cases(self, rng, tier, config, k, K, n):
-        for case in common.list_stream(rng, tier, n, k, K, kw_fn=common.kw_sync, nmin=2,
-                                       nmax_trains=9 if tier == "quick" else 24):
+        def stream():
+            # W15 crowd: one case per worker (thorough: a few, up to 300 trains) with more than 127 / 255 trains
+            for q in range(1 if tier == "quick" else 3):
+                c = gen.crowd_list(rng, rng.choice([130, 136]) if tier == "quick" else rng.choice([130, 200, 260, 300]))
+                c["kw"] = {"MRTS": 0, "max_tau": rng.choice([None, 0, 8.0])}
+                yield c
+            for c in common.list_stream(rng, tier, n, k, K, kw_fn=common.kw_sync, nmin=2,
+                                        nmax_trains=9 if tier == "quick" else 24):
+                yield c
+        for case in stream():
             N = len(case["trains"])
             r = rng.random()
             if r < 0.12:
@@ -57,6 +65,8 @@ class Prop(BaseProp):
         mt = case["kw"]["max_tau"]
         kw = {"MRTS": m, "max_tau": mt}
         thr = case["thr"]
+        if N > 127:
+            ctx.count("crowd_more_than_127_trains")
         ctx.count("thr_" + {"zero": "zero", "one": "one", "k/(N-1)": "kN", "random": "random"}[case["thr_class"]])
         if case["thr_class"] == "k/(N-1)" and (N - 1) in (1, 2, 4, 8):
             ctx.count("thr_exact_hit_N-1=%d" % (N - 1))
